@@ -344,3 +344,43 @@ class Check:
             self.pid, self.tier, self.states, self.traces, self.evaluations, len(self.distinct_keys),
             len(self.violations), sum(len(v) for v in self.known_seen.values()), wall))
         return rc
+
+
+# ------------------------------------------------------------------ trace validation helper
+def validate_trace(module, cfg, records, name, boundaries=None, chunks=1, timeout=1800, xmx="3g", tag="VERDICT"):
+    """impl -> spec: write `records` as ndjson, let TLC (Trace_* spec) judge them, return the list of
+    verdict dicts in record order (verdict["i"] is rewritten to the 0-based index into `records`).
+    With chunks > 1 the records are split at `boundaries` (indices where a new independent run
+    starts, e.g. Reset events) and validated by several single-worker TLC processes in parallel.
+    Returns (verdicts, states, transitions)."""
+    from concurrent.futures import ThreadPoolExecutor
+    w = os.path.join(WORK, "trace-" + name)
+    shutil.rmtree(w, ignore_errors=True)
+    os.makedirs(w, exist_ok=True)
+    if not records:
+        return [], 0, 0
+    if boundaries is None or chunks <= 1:
+        cuts = [0, len(records)]
+    else:
+        bs = sorted(set([0] + [b for b in boundaries if 0 < b < len(records)]))
+        per = max(1, len(bs) // chunks)
+        cuts = [bs[i] for i in range(0, len(bs), per)]
+        cuts = cuts[:chunks] + [len(records)] if len(cuts) > chunks else cuts + [len(records)]
+    parts = [(cuts[i], cuts[i + 1]) for i in range(len(cuts) - 1) if cuts[i] < cuts[i + 1]]
+
+    def one(k):
+        lo, hi = parts[k]
+        path = os.path.join(w, "part%d.ndjson" % k)
+        write_ndjson(path, records[lo:hi])
+        r = tlc(module, cfg, workers=1, env={"TRACE": path}, deque=True, timeout=timeout, xmx=xmx,
+                name="%s-%d" % (name, k))
+        vs = r.tagged(tag)
+        for v in vs:
+            v["i"] = v["i"] - 1 + lo
+        return vs, r.distinct, r.generated
+
+    with ThreadPoolExecutor(max_workers=min(len(parts), 12)) as ex:
+        res = list(ex.map(one, range(len(parts))))
+    verdicts = [v for vs, _, _ in res for v in vs]
+    verdicts.sort(key=lambda v: v["i"])
+    return verdicts, sum(d for _, d, _ in res), sum(g for _, _, g in res)
